@@ -72,8 +72,8 @@ func C02_PrimaryNeverIssues() {
 
 // C02_SecondFactorStep: the validate routes complete a login only with a code valid for the
 // pending account's own factor or one of its unused recovery codes. For SMS: the code held by
-// the session must have been texted to that account's registered number (ghost smsSentTo,
-// invariant A6 assumed on the pre-state).
+// the session must have been texted to that account's registered number (ghost smsSentTo;
+// invariant A6: the session records next to a code the number it was texted to).
 func C02_SecondFactorStep() {
 	verif.ReplayInInterpreter()
 	o := twoFAOpts()
@@ -84,11 +84,6 @@ func C02_SecondFactorStep() {
 		route = "POST /2fa/sms/validate"
 	}
 	v := symbolicValues()
-	// A6 on the pre-state
-	sp, spHas := f.preS.Lookup2(sms2fa.SessionSMSPendingPID)
-	for _, a := range f.a {
-		verif.Assume(verif.Implies(verif.And(verif.And(spHas, sp == a.pid), f.preS.Has(sms2fa.SessionSMSSecret)), f.smsSentTo == a.u.SMSPhoneNumber))
-	}
 	_, panicked, _ := f.serve(route, v, nil)
 	if panicked {
 		return
@@ -125,11 +120,7 @@ func C02_LoginThenSMSValidate() {
 	o := twoFAOpts()
 	o.totp = false
 	f := newFlow(o)
-	// the browser starts without any pending SMS state or with one satisfying A6
-	sp, spHas := f.preS.Lookup2(sms2fa.SessionSMSPendingPID)
-	for _, a := range f.a {
-		verif.Assume(verif.Implies(verif.And(verif.And(spHas, sp == a.pid), f.preS.Has(sms2fa.SessionSMSSecret)), f.smsSentTo == a.u.SMSPhoneNumber))
-	}
+	// the browser starts in any state satisfying A6 (flow.go)
 	if sec, has := f.preS.Lookup2(sms2fa.SessionSMSSecret); has {
 		stubs.OutstandingCodes = []string{sec}
 	}
